@@ -3,6 +3,7 @@
 // RV64GC instruction-subset emulator (emu/rv64.hpp). Oracle as in C19.
 #define RXENV_DEFINE_WRAPPERS
 #include "harness/rxenv.hpp"
+#include "harness/ssmut.hpp"
 #include "gen/progs.hpp"
 #include "gen/gens.hpp"
 #include "vm_interpreted.hpp"
@@ -28,7 +29,7 @@ static void addCommonRegions(rv64::Cpu& cpu) {
 	cpu.regions.push_back({(uintptr_t)&randomx_aes_lut_enc[0][0], (uintptr_t)&randomx_aes_lut_enc[0][0] + 4096, false, "aes enc tables"});
 	cpu.regions.push_back({(uintptr_t)&randomx_aes_lut_dec[0][0], (uintptr_t)&randomx_aes_lut_dec[0][0] + 4096, false, "aes dec tables"});
 }
-static void ensureSshash() { static bool done = false; if (done) return; jit->generateSuperscalarHash(env.cache->programs, env.cache->reciprocalCache); done = true; }
+static void ensureSshash(uint64_t mut = 0) { static bool done = false; if (!ssmut::apply(env.cache, mut) && done) return; jit->generateSuperscalarHash(env.cache->programs, env.cache->reciprocalCache); done = true; }
 
 static std::string body(const pg::ProgCase& c) {
 	int flags = (c.hardAes ? RANDOMX_FLAG_HARD_AES : 0) | (c.fast ? RANDOMX_FLAG_FULL_MEM : 0) | (c.v2 ? RANDOMX_FLAG_V2 : 0);
@@ -81,12 +82,12 @@ static std::string body(const pg::ProgCase& c) {
 }
 
 struct DCase {
-	uint64_t start; uint32_t count;
-	std::string dump() const { return vh::KVWriter()("start", start)("count", count).str(); }
-	static DCase parse(const vh::KV& kv) { return DCase{vh::getu(kv, "start"), (uint32_t)vh::getu(kv, "count")}; }
+	uint64_t start; uint32_t count; uint64_t mut;   // mut != 0: SuperscalarHash programs with boundary immediates (harness/ssmut.hpp)
+	std::string dump() const { return vh::KVWriter()("start", start)("count", count)("mut", mut).str(); }
+	static DCase parse(const vh::KV& kv) { return DCase{vh::getu(kv, "start"), (uint32_t)vh::getu(kv, "count"), vh::getu(kv, "mut", 0)}; }
 };
 static std::string dsBody(const DCase& c) {
-	ensureSshash();
+	ensureSshash(c.mut);
 	std::vector<uint8_t> out((size_t)c.count * 64 + 64, 0xEE);
 	rv64::Cpu cpu; memset(cpu.x, 0, sizeof cpu.x); memset(cpu.f, 0, sizeof cpu.f); cpu.trace = &traceWords;
 	addCommonRegions(cpu);
@@ -99,7 +100,7 @@ static std::string dsBody(const DCase& c) {
 	for (uint32_t i = 0; i < c.count; ++i) { uint8_t refItem[64]; initDatasetItem(env.cache, refItem, c.start + i); if (memcmp(refItem, &out[(size_t)i * 64], 64) != 0) return "dataset item " + std::to_string(c.start + i) + " from the emitted RV64 code differs from the interpreter item"; }
 	for (int i = 0; i < 64; ++i) if (out[(size_t)c.count * 64 + i] != 0xEE) return "emitted dataset-init code wrote past the requested items";
 	if (vh::st().replaying) return "";
-	vh::label("dataset-items-compared", c.count); vh::nontrivial(vh::mix(c.start, c.count));
+	vh::label("dataset-items-compared", c.count); vh::label(c.mut ? "superscalar-programs:boundary-immediates" : "superscalar-programs:as-generated"); if (c.mut) vh::label("boundary-immediates-substituted", ssmut::saved().substituted); vh::nontrivial(vh::mix(vh::mix(c.start, c.count), c.mut));
 	return "";
 }
 
@@ -108,8 +109,8 @@ int main(int argc, char** argv) {
 	auto minimizer = [](const pg::ProgCase& c) { return pg::minimize(c, [](const pg::ProgCase& t) { return !body(t).empty(); }); };
 	vh::registerCheck<pg::ProgCase>("rv64_prog", [] { return pg::genProgCase({6, 4, 3, 2, 2, 2, 1, 1, 4}, 70, false); }, body, true, minimizer);
 	vh::registerCheck<DCase>("rv64_dataset", [] {
-		return gen::resize(100, gen::apply([](uint64_t s, int cnt, int kind) { const uint64_t N = DatasetSize / 64; uint64_t start = kind == 0 ? 0 : kind == 1 ? N - cnt : s % (N - cnt); return DCase{start, (uint32_t)cnt}; },
-			gen::arbitrary<uint64_t>(), gen::inRange(1, 33), gen::inRange(0, 4)));
+		return gen::resize(100, gen::apply([](uint64_t s, int cnt, int kind, int mk, uint64_t ms) { const uint64_t N = DatasetSize / 64; uint64_t start = kind == 0 ? 0 : kind == 1 ? N - cnt : s % (N - cnt); return DCase{start, (uint32_t)cnt, mk == 0 ? 0 : (ms | 1)}; },
+			gen::arbitrary<uint64_t>(), gen::inRange(1, 33), gen::inRange(0, 4), gen::inRange(0, 3), gen::arbitrary<uint64_t>()));
 	}, dsBody, true);
 	int rc_ = vh::harnessMain(argc, argv, [] {
 		env.init(true);
